@@ -461,6 +461,11 @@ func writeRegistry(dir, pkg string) error {
 				fmt.Fprintf(&b, "\t\t\tMustMakeFromBytes: func(b []byte) reg.Record { v := %s%sFromBytes(b); return &v },\n", mk, n)
 			}
 		}
+		for _, nw := range []string{"New", "new"} {
+			if funcs[nw+n] {
+				fmt.Fprintf(&b, "\t\t\tNewFunc: %s%s,\n", nw, n)
+			}
+		}
 		if methods[n]["MustUnmarshalBebop"] {
 			fmt.Fprintf(&b, "\t\t\tMustUnmarshal: func(r reg.Record, b []byte) { r.(*%s).MustUnmarshalBebop(b) },\n", n)
 		}
